@@ -6,50 +6,57 @@
 -/
 import PsutilModel.Proofs.C01Args
 namespace Psutil.C01
+variable {nt : Bool}
 open Spec
 
 /-! ### kernel -/
 
-structure KInv2 (k : Kernel) : Prop where
+structure KInv2 (nt : Bool) (k : Kernel) : Prop where
   uniq : (k.procs.map (·.pid)).Nodup
   stamped : ∀ x ∈ k.procs, x.start < k.clock
-  btime : k.btime ≠ 0
+  btime : BtOK nt k.btime
+  stamp : ∀ x ∈ k.procs, x.stamp = x.start
 
 /-- the only thing asked of a history here: the published boot time is never 0 -/
-def KEv.OKb : KEv → Prop
-  | .setBtime b => b ≠ 0
+def KEv.OKb (e : KEv) (nt : Bool) : Prop :=
+  match e with
+  | .setBtime b => BtOK nt b
+  | .spawnSameTick _ => False      -- psutil's documented assumption: a PID is not recycled within one clock tick
   | _ => True
 
-def Ev.OKb : Ev → Prop
-  | .k e => e.OKb
+def Ev.OKb (ev : Ev) (nt : Bool) : Prop :=
+  match ev with
+  | .k e => e.OKb nt
   | .c _ => True
 
-def HistOKb (h : List Ev) : Prop := ∀ e ∈ h, e.OKb
+def HistOKb (nt : Bool) (h : List Ev) : Prop := ∀ e ∈ h, e.OKb nt
 
-instance : DecidablePred KEv.OKb := fun e => by
+instance (nt : Bool) : DecidablePred (KEv.OKb · nt) := fun e => by
   cases e <;> simp only [KEv.OKb] <;> infer_instance
 
-instance : DecidablePred Ev.OKb := fun e => by
+instance (nt : Bool) : DecidablePred (Ev.OKb · nt) := fun e => by
   cases e <;> simp only [Ev.OKb] <;> infer_instance
 
-instance (h : List Ev) : Decidable (HistOKb h) := by
+instance (nt : Bool) (h : List Ev) : Decidable (HistOKb nt h) := by
   unfold HistOKb; infer_instance
 
 /-- the hypotheses of the main theorems are stronger -/
-theorem HistOK.toOKb {h : List Ev} (hh : HistOK h) : HistOKb h := fun e he => by
+theorem HistOK.toOKb {h : List Ev} (hh : HistOK nt h) : HistOKb nt h := fun e he => by
   have := hh e he
   cases e with
   | c _ => trivial
   | k ke => cases ke <;> first | trivial | exact this
 
-theorem KInv2.apply {k : Kernel} (h : KInv2 k) (e : KEv) (he : e.OKb) : KInv2 (k.apply e) := by
+theorem KInv2.apply {k : Kernel} (h : KInv2 nt k) (e : KEv) (he : e.OKb nt) : KInv2 nt (k.apply e) := by
+  have hst := stamps_apply e (fun p hp => by subst hp; exact he) h.stamp
   cases e with
+  | spawnSameTick p => exact he.elim
   | spawn p =>
     cases hf : k.find p with
     | some x => rw [apply_spawn_busy hf]; exact h
     | none =>
-      rw [apply_spawn_free hf]
-      refine ⟨?_, ?_, h.btime⟩
+      rw [apply_spawn_free hf] at hst ⊢
+      refine ⟨?_, ?_, h.btime, hst⟩
       · simp only [List.map_cons, List.nodup_cons]
         refine ⟨?_, h.uniq⟩
         intro hm
@@ -61,7 +68,7 @@ theorem KInv2.apply {k : Kernel} (h : KInv2 k) (e : KEv) (he : e.OKb) : KInv2 (k
         · exact Nat.lt_succ_self _
         · exact Nat.lt_succ_of_lt (h.stamped x hx)
   | exit p =>
-    refine ⟨?_, ?_, h.btime⟩
+    refine ⟨?_, ?_, h.btime, hst⟩
     · have : (k.apply (.exit p)).procs.map (·.pid) = k.procs.map (·.pid) := by
         simp only [Kernel.apply, List.map_map]
         apply List.map_congr_left
@@ -73,21 +80,21 @@ theorem KInv2.apply {k : Kernel} (h : KInv2 k) (e : KEv) (he : e.OKb) : KInv2 (k
       have := h.stamped y hy
       split <;> exact this
   | reap p =>
-    refine ⟨?_, ?_, h.btime⟩
+    refine ⟨?_, ?_, h.btime, hst⟩
     · exact List.Nodup.sublist (List.Sublist.map _ List.filter_sublist) h.uniq
     · intro x hx
       exact h.stamped x (List.mem_filter.1 hx).1
   | tick n =>
-    refine ⟨h.uniq, ?_, h.btime⟩
+    refine ⟨h.uniq, ?_, h.btime, hst⟩
     intro x hx
     exact Nat.lt_of_lt_of_le (h.stamped x hx) (Nat.le_add_right _ _)
-  | setBtime b => exact ⟨h.uniq, h.stamped, he⟩
+  | setBtime b => exact ⟨h.uniq, h.stamped, he, hst⟩
   | perm p e =>
     obtain ⟨hp, hc, hb, _⟩ := apply_perm_rest k p e
-    exact ⟨by rw [hp]; exact h.uniq, by rw [hp, hc]; exact h.stamped, by rw [hb]; exact h.btime⟩
+    exact ⟨by rw [hp]; exact h.uniq, by rw [hp, hc]; exact h.stamped, by rw [hb]; exact h.btime, hst⟩
   | hide p b =>
     obtain ⟨hp, hc, hb, _⟩ := apply_hide_rest k p b
-    exact ⟨by rw [hp]; exact h.uniq, by rw [hp, hc]; exact h.stamped, by rw [hb]; exact h.btime⟩
+    exact ⟨by rw [hp]; exact h.uniq, by rw [hp, hc]; exact h.stamped, by rw [hb]; exact h.btime, hst⟩
 
 /-! ### objects -/
 
@@ -107,13 +114,13 @@ theorem ObjOK2.mono {clk : Nat} {k : Kernel} {bt bt' : Option Nat} {o : PObj} (h
   ⟨h.ghost_lt, fun v hv => let ⟨B, hB, e⟩ := h.ident_eq v hv; ⟨B, hb B hB, e⟩⟩
 
 /-- what a call may do to the module state here: objects untouched, `BOOT_TIME` only initialised -/
-structure PsExt (ps ps' : Ps) : Prop where
+structure PsExt (nt : Bool) (ps ps' : Ps) : Prop where
   objs : ps'.objs = ps.objs
   boot : BootExt ps.bootTime ps'.bootTime
-  nz : (∀ B, ps.bootTime = some B → B ≠ 0) → ∀ B, ps'.bootTime = some B → B ≠ 0
+  nz : (∀ B, ps.bootTime = some B → BtOK nt B) → ∀ B, ps'.bootTime = some B → BtOK nt B
 
-theorem PsExt.refl (ps : Ps) : PsExt ps ps := ⟨rfl, BootExt.refl _, fun h => h⟩
-theorem PsExt.trans {a b c : Ps} (h1 : PsExt a b) (h2 : PsExt b c) : PsExt a c :=
+theorem PsExt.refl (ps : Ps) : PsExt nt ps ps := ⟨rfl, BootExt.refl _, fun h => h⟩
+theorem PsExt.trans {a b c : Ps} (h1 : PsExt nt a b) (h2 : PsExt nt b c) : PsExt nt a c :=
   ⟨h2.objs.trans h1.objs, h1.boot.trans h2.boot, fun h => h2.nz (h1.nz h)⟩
 
 /-- same pid, same ghost, same `_ident` -/
@@ -124,17 +131,17 @@ structure Same (o o' : PObj) : Prop where
 
 theorem Same.refl (o : PObj) : Same o o := ⟨rfl, rfl, rfl⟩
 
-theorem bootTimeCall_ext (c : Cfg) (k : Kernel) (hk : k.btime ≠ 0) (ps : Ps) (hc : c.BootGood) :
-    PsExt ps (bootTimeCall c k ps).1 := by
+theorem bootTimeCall_ext (c : Cfg) (k : Kernel) (hk : BtOK c.createNoneTest k.btime) (ps : Ps) (hc : c.BootGood) :
+    PsExt c.createNoneTest ps (bootTimeCall c k ps).1 := by
   cases hb : ps.bootTime with
   | none =>
     rw [bootTimeCall_none hb]
     exact ⟨rfl, fun B hB => (by rw [hb] at hB; cases hB), fun _ B hB => (by cases hB; exact hk)⟩
   | some B => rw [bootTimeCall_some hc hb]; exact PsExt.refl _
 
-theorem bootForCreate_ext {c : Cfg} (hc : c.BootGood) {k : Kernel} (hk : k.btime ≠ 0) (ps : Ps)
-    (hnz : ∀ B, ps.bootTime = some B → B ≠ 0) :
-    PsExt ps (bootForCreate c k ps).1
+theorem bootForCreate_ext {c : Cfg} (hc : c.BootGood) {k : Kernel} (hk : BtOK c.createNoneTest k.btime) (ps : Ps)
+    (hnz : ∀ B, ps.bootTime = some B → BtOK c.createNoneTest B) :
+    PsExt c.createNoneTest ps (bootForCreate c k ps).1
       ∧ (bootForCreate c k ps).1.bootTime = some (bootForCreate c k ps).2
       ∧ (∀ B, ps.bootTime = some B → (bootForCreate c k ps).2 = B) := by
   cases hb : ps.bootTime with
@@ -147,9 +154,9 @@ theorem bootForCreate_ext {c : Cfg} (hc : c.BootGood) {k : Kernel} (hk : k.btime
     exact ⟨PsExt.refl _, hb, fun B' hB' => by cases hB'; rfl⟩
 
 /-- `Process(pid)` under the weak invariant -/
-theorem mkObj_ext {c : Cfg} (hc : c.BootGood) {k : Kernel} (hk : KInv2 k) (ps : Ps)
-    (hnz : ∀ B, ps.bootTime = some B → B ≠ 0) (pid : Nat) :
-    PsExt ps (mkObj c k ps pid).1
+theorem mkObj_ext {c : Cfg} (hc : c.BootGood) {k : Kernel} (hk : KInv2 c.createNoneTest k) (ps : Ps)
+    (hnz : ∀ B, ps.bootTime = some B → BtOK c.createNoneTest B) (pid : Nat) :
+    PsExt c.createNoneTest ps (mkObj c k ps pid).1
       ∧ ∀ o, (mkObj c k ps pid).2 = some o → ObjOK2 c.clk k (mkObj c k ps pid).1.bootTime o := by
   unfold mkObj
   cases hf : k.find pid with
@@ -167,16 +174,17 @@ theorem mkObj_ext {c : Cfg} (hc : c.BootGood) {k : Kernel} (hk : KInv2 k) (ps : 
       refine ⟨hext, fun o h => ?_⟩
       simp only [Option.some.injEq] at h
       subst h
-      exact ⟨h_lt hk hf, fun v hv => ⟨_, hbt, by simp only [Option.some.injEq] at hv; exact hv.symm⟩⟩
+      exact ⟨h_lt hk hf, fun v hv => ⟨_, hbt, by
+        simp only [Option.some.injEq, hk.stamp x (List.mem_of_find?_eq_some hf)] at hv; exact hv.symm⟩⟩
 where
-  h_lt {k : Kernel} (hk : KInv2 k) {pid : Nat} {x : Inst} (hf : k.find pid = some x) : x.start < k.clock :=
+  h_lt {k : Kernel} (hk : KInv2 c.createNoneTest k) {pid : Nat} {x : Inst} (hf : k.find pid = some x) : x.start < k.clock :=
     hk.stamped x (List.mem_of_find?_eq_some hf)
 
 /-! ### `is_running()` and the guard, in any state -/
 
-theorem isRunningO_ext {c : Cfg} (hc : c.BootGood) {k : Kernel} (hk : KInv2 k) (ps : Ps)
-    (hnz : ∀ B, ps.bootTime = some B → B ≠ 0) (o : PObj) :
-    PsExt ps (isRunningO c k ps o).1 ∧ Same o (isRunningO c k ps o).2.1 := by
+theorem isRunningO_ext {c : Cfg} (hc : c.BootGood) {k : Kernel} (hk : KInv2 c.createNoneTest k) (ps : Ps)
+    (hnz : ∀ B, ps.bootTime = some B → BtOK c.createNoneTest B) (o : PObj) :
+    PsExt c.createNoneTest ps (isRunningO c k ps o).1 ∧ Same o (isRunningO c k ps o).2.1 := by
   unfold isRunningO
   split
   · exact ⟨PsExt.refl _, Same.refl _⟩
@@ -192,9 +200,9 @@ theorem isRunningO_ext {c : Cfg} (hc : c.BootGood) {k : Kernel} (hk : KInv2 k) (
         · exact ⟨⟨hm.objs, hm.boot, hm.nz⟩, ⟨rfl, rfl, rfl⟩⟩
         · exact ⟨hm, Same.refl _⟩
 
-theorem raise_ext {c : Cfg} (hc : c.BootGood) {k : Kernel} (hk : KInv2 k) (ps : Ps)
-    (hnz : ∀ B, ps.bootTime = some B → B ≠ 0) (o : PObj) :
-    PsExt ps (raiseIfPidReusedO c k ps o).1 ∧ Same o (raiseIfPidReusedO c k ps o).2.1 := by
+theorem raise_ext {c : Cfg} (hc : c.BootGood) {k : Kernel} (hk : KInv2 c.createNoneTest k) (ps : Ps)
+    (hnz : ∀ B, ps.bootTime = some B → BtOK c.createNoneTest B) (o : PObj) :
+    PsExt c.createNoneTest ps (raiseIfPidReusedO c k ps o).1 ∧ Same o (raiseIfPidReusedO c k ps o).2.1 := by
   have h := isRunningO_ext hc hk ps hnz o
   rw [raise_eq]
   split
@@ -203,17 +211,17 @@ theorem raise_ext {c : Cfg} (hc : c.BootGood) {k : Kernel} (hk : KInv2 k) (ps : 
     · exact h
     · split <;> exact h
 
-theorem guarded_ext {c : Cfg} (hc : c.BootGood) (has : Bool) {k : Kernel} (hk : KInv2 k) (ps : Ps)
-    (hnz : ∀ B, ps.bootTime = some B → B ≠ 0) (o : PObj) :
-    PsExt ps (guardedO c has k ps o).1 ∧ Same o (guardedO c has k ps o).2.1 := by
+theorem guarded_ext {c : Cfg} (hc : c.BootGood) (has : Bool) {k : Kernel} (hk : KInv2 c.createNoneTest k) (ps : Ps)
+    (hnz : ∀ B, ps.bootTime = some B → BtOK c.createNoneTest B) (o : PObj) :
+    PsExt c.createNoneTest ps (guardedO c has k ps o).1 ∧ Same o (guardedO c has k ps o).2.1 := by
   unfold guardedO
   cases has with
   | true => simpa using raise_ext hc hk ps hnz o
   | false => exact ⟨PsExt.refl _, Same.refl _⟩
 
-theorem method_ext {c : Cfg} (hc : c.BootGood) {k : Kernel} (hk : KInv2 k) (ps : Ps)
-    (hnz : ∀ B, ps.bootTime = some B → B ≠ 0) (o : PObj) {call : Call} {r : MRes}
-    (hm : method c k ps o call = some r) : PsExt ps r.ps ∧ Same o r.o := by
+theorem method_ext {c : Cfg} (hc : c.BootGood) {k : Kernel} (hk : KInv2 c.createNoneTest k) (ps : Ps)
+    (hnz : ∀ B, ps.bootTime = some B → BtOK c.createNoneTest B) (o : PObj) {call : Call} {r : MRes}
+    (hm : method c k ps o call = some r) : PsExt c.createNoneTest ps r.ps ∧ Same o r.o := by
   cases call <;> simp only [method, Option.some.injEq, reduceCtorEq] at hm
   · subst hm; exact isRunningO_ext hc hk ps hnz o
   · subst hm
@@ -255,8 +263,8 @@ theorem method_ext {c : Cfg} (hc : c.BootGood) {k : Kernel} (hk : KInv2 k) (ps :
 /-- **the guard and a known start.**  In any state satisfying the weak invariant: when the guard lets an object
     with `_ident = (pid, t)` through, the PID is held by the very incarnation the object was built for. -/
 theorem guard_known {c : Cfg} (hc : c.BootGood) (hg : c.goneRaises = true) {k : Kernel} (ps : Ps)
-    (hnz : ∀ B, ps.bootTime = some B → B ≠ 0) {o : PObj} (hok : ObjOK2 c.clk k ps.bootTime o)
-    {v : Nat} (hv : o.ident = some v) {x : Inst} (hf : k.find o.pid = some x)
+    (hnz : ∀ B, ps.bootTime = some B → BtOK c.createNoneTest B) {o : PObj} (hok : ObjOK2 c.clk k ps.bootTime o)
+    {v : Nat} (hv : o.ident = some v) {x : Inst} (hf : k.find o.pid = some x) (hst : x.stamp = x.start)
     (hpass : (raiseIfPidReusedO c k ps o).2.2 = false) : x.start = o.ghost := by
   obtain ⟨B, hB, hvB⟩ := hok.ident_eq v hv
   rw [raise_eq] at hpass
@@ -278,7 +286,7 @@ theorem guard_known {c : Cfg} (hc : c.BootGood) (hg : c.goneRaises = true) {k : 
       · simp only [mkObj, hf]
         by_cases hh : k.isHidden o.pid = true
         · simp [hh, hv]
-        · simp only [hh, Bool.false_eq_true, if_false, bootForCreate_some hc hB (hnz B hB)]
+        · simp only [hh, Bool.false_eq_true, if_false, bootForCreate_some hc hB (hnz B hB), hst]
     rw [hrun] at hpass
     by_cases hgo : o.gone = true
     · simp [hgo, hg] at hpass
@@ -295,28 +303,28 @@ theorem guard_known {c : Cfg} (hc : c.BootGood) (hg : c.goneRaises = true) {k : 
 
 /-! ### state invariant over histories with unreadable stat files -/
 
-structure PInv2 (clk : Nat) (k : Kernel) (ps : Ps) : Prop where
-  boot_nz : ∀ B, ps.bootTime = some B → B ≠ 0
+structure PInv2 (nt : Bool) (clk : Nat) (k : Kernel) (ps : Ps) : Prop where
+  boot_nz : ∀ B, ps.bootTime = some B → BtOK nt B
   objs : ∀ o ∈ ps.objs, ObjOK2 clk k ps.bootTime o
 
-structure Inv2 (clk : Nat) (s : St) : Prop where
-  kern : KInv2 s.kern
-  ps : PInv2 clk s.kern s.ps
+structure Inv2 (nt : Bool) (clk : Nat) (s : St) : Prop where
+  kern : KInv2 nt s.kern
+  ps : PInv2 nt clk s.kern s.ps
 
-theorem PInv2.ext {clk : Nat} {k : Kernel} {ps ps' : Ps} (h : PInv2 clk k ps) (he : PsExt ps ps') :
-    PInv2 clk k ps' :=
+theorem PInv2.ext {clk : Nat} {k : Kernel} {ps ps' : Ps} (h : PInv2 nt clk k ps) (he : PsExt nt ps ps') :
+    PInv2 nt clk k ps' :=
   ⟨he.nz h.boot_nz, fun o ho => (h.objs o (he.objs ▸ ho)).mono he.boot⟩
 
-theorem PInv2.push {clk : Nat} {k : Kernel} {ps : Ps} (h : PInv2 clk k ps) {o : PObj}
-    (ho : ObjOK2 clk k ps.bootTime o) : PInv2 clk k { ps with objs := ps.objs ++ [o] } :=
+theorem PInv2.push {clk : Nat} {k : Kernel} {ps : Ps} (h : PInv2 nt clk k ps) {o : PObj}
+    (ho : ObjOK2 clk k ps.bootTime o) : PInv2 nt clk k { ps with objs := ps.objs ++ [o] } :=
   ⟨h.boot_nz, fun x hx => by
     rcases List.mem_append.1 hx with hx | hx
     · exact h.objs x hx
     · simp only [List.mem_singleton] at hx; subst hx; exact ho⟩
 
-theorem iterLoop_inv2 {c : Cfg} (hc : c.BootGood) {k : Kernel} (hk : KInv2 k) (kept : List (Nat × Nat))
-    (evicted : List Nat) : ∀ (l : List Nat) (ps : Ps), PInv2 c.clk k ps →
-      PInv2 c.clk k (iterLoop c k kept evicted ps l).1 := by
+theorem iterLoop_inv2 {c : Cfg} (hc : c.BootGood) {k : Kernel} (hk : KInv2 c.createNoneTest k) (kept : List (Nat × Nat))
+    (evicted : List Nat) : ∀ (l : List Nat) (ps : Ps), PInv2 c.createNoneTest c.clk k ps →
+      PInv2 c.createNoneTest c.clk k (iterLoop c k kept evicted ps l).1 := by
   intro l
   induction l with
   | nil => intro ps h; exact h
@@ -337,11 +345,11 @@ theorem iterLoop_inv2 {c : Cfg} (hc : c.BootGood) {k : Kernel} (hk : KInv2 k) (k
           | none => exact ih ps' (h.ext hm.1)
           | some o => exact ih _ ((h.ext hm.1).push (hm.2 o rfl))
 
-theorem PInv2.apply {clk : Nat} {k : Kernel} {ps : Ps} (h : PInv2 clk k ps) (e : KEv) : PInv2 clk (k.apply e) ps :=
+theorem PInv2.apply {clk : Nat} {k : Kernel} {ps : Ps} (h : PInv2 nt clk k ps) (e : KEv) : PInv2 nt clk (k.apply e) ps :=
   ⟨h.boot_nz, fun o ho => ⟨Nat.lt_of_lt_of_le (h.objs o ho).ghost_lt (clock_mono k e), (h.objs o ho).ident_eq⟩⟩
 
-theorem step_inv2 {c : Cfg} (hc : c.BootGood) (s : St) (ev : Ev) (hev : ev.OKb) (h : Inv2 c.clk s) :
-    Inv2 c.clk (step c s ev).1 := by
+theorem step_inv2 {c : Cfg} (hc : c.BootGood) (s : St) (ev : Ev) (hev : ev.OKb c.createNoneTest) (h : Inv2 c.createNoneTest c.clk s) :
+    Inv2 c.createNoneTest c.clk (step c s ev).1 := by
   cases ev with
   | k e => exact ⟨h.kern.apply e hev, h.ps.apply e⟩
   | c call =>
@@ -384,12 +392,12 @@ theorem step_inv2 {c : Cfg} (hc : c.BootGood) (s : St) (ev : Ev) (hev : ev.OKb) 
       · exact h
       · split <;> exact h
 
-theorem init_inv2 (clk : Nat) {b : Nat} (hb : b ≠ 0) : Inv2 clk (St.init b) :=
-  ⟨⟨by simp [St.init], fun x hx => by simp [St.init] at hx, hb⟩,
+theorem init_inv2 (clk : Nat) {b : Nat} (hb : BtOK nt b) : Inv2 nt clk (St.init b) :=
+  ⟨⟨by simp [St.init], fun x hx => by simp [St.init] at hx, hb, fun x hx => by simp [St.init] at hx⟩,
    ⟨fun B hB => by simp [St.init] at hB, fun o ho => by simp [St.init] at ho⟩⟩
 
-theorem run_inv2 {c : Cfg} (hc : c.BootGood) (h : List Ev) : ∀ (s : St), HistOKb h → Inv2 c.clk s →
-    Inv2 c.clk (run c s h) := by
+theorem run_inv2 {c : Cfg} (hc : c.BootGood) (h : List Ev) : ∀ (s : St), HistOKb c.createNoneTest h → Inv2 c.createNoneTest c.clk s →
+    Inv2 c.createNoneTest c.clk (run c s h) := by
   induction h with
   | nil => intro s _ hi; exact hi
   | cons e es ih =>
@@ -414,7 +422,7 @@ theorem EffOK2.mono {a b : List PObj} (hext : ObjsSame a b) {e : Eff} (h : EffOK
   obtain ⟨o', ho', hs⟩ := hext _ _ ho
   exact ⟨o', ho', by rw [hs.pid]; exact hp, hk, fun hn => by rw [hs.ghost]; exact hw (by rw [← hs.ident]; exact hn)⟩
 
-theorem step_same {c : Cfg} (hc : c.BootGood) (s : St) (ev : Ev) (h : Inv2 c.clk s) :
+theorem step_same {c : Cfg} (hc : c.BootGood) (s : St) (ev : Ev) (h : Inv2 c.createNoneTest c.clk s) :
     ObjsSame s.ps.objs (step c s ev).1.ps.objs := by
   cases ev with
   | k e => exact ObjsSame.refl _
@@ -456,8 +464,8 @@ theorem step_same {c : Cfg} (hc : c.BootGood) (s : St) (ev : Ev) (h : Inv2 c.clk
       · split <;> exact ObjsSame.refl _
 
 /-- an effect produced under the weak invariant -/
-theorem method_eff_ok2 {c : Cfg} (hg : c.Good) {k : Kernel} {ps : Ps}
-    (hnz : ∀ B, ps.bootTime = some B → B ≠ 0) {o : PObj} (hok : ObjOK2 c.clk k ps.bootTime o)
+theorem method_eff_ok2 {c : Cfg} (hg : c.Good) {k : Kernel} {ps : Ps} (hst : ∀ x ∈ k.procs, x.stamp = x.start)
+    (hnz : ∀ B, ps.bootTime = some B → BtOK c.createNoneTest B) {o : PObj} (hok : ObjOK2 c.clk k ps.bootTime o)
     {call : Call} {r : MRes} (hm : method c k ps o call = some r)
     {e : EffKind × Int × List Int × Option Nat × Option Errno} (he : r.eff = some e) :
     e.2.1 = (o.pid : Int) ∧ (e.1 = .kill → 0 < e.2.1) ∧ (o.ident ≠ none → e.2.2.2.1 = some o.ghost) := by
@@ -475,7 +483,7 @@ theorem method_eff_ok2 {c : Cfg} (hg : c.Good) {k : Kernel} {ps : Ps}
       · cases hv : o.ident with
         | none => exact absurd hv hn
         | some v =>
-          have := guard_known hg.toBootGood hg.goneRaises ps hnz hok hv hf (by simpa [guardedO] using hgf)
+          have := guard_known hg.toBootGood hg.goneRaises ps hnz hok hv hf (hst x (List.mem_of_find?_eq_some hf)) (by simpa [guardedO] using hgf)
           simp [this]
     · rename_i kind args
       obtain ⟨x, a, hf, _, rfl, hgf⟩ := setterM_eff_shape _ _ _ _ _ _ he
@@ -484,12 +492,12 @@ theorem method_eff_ok2 {c : Cfg} (hg : c.Good) {k : Kernel} {ps : Ps}
       cases hv : o.ident with
       | none => exact absurd hv hn
       | some v =>
-        have := guard_known hg.toBootGood hg.goneRaises ps hnz hok hv hf (by simpa [guardedO] using hgf)
+        have := guard_known hg.toBootGood hg.goneRaises ps hnz hok hv hf (hst x (List.mem_of_find?_eq_some hf)) (by simpa [guardedO] using hgf)
         simp [this]
 
 def LogOK2 (s : St) : Prop := ∀ e ∈ s.log, EffOK2 s.ps.objs e
 
-theorem step_log2 {c : Cfg} (hg : c.Good) (s : St) (ev : Ev) (h : Inv2 c.clk s) (hl : LogOK2 s) :
+theorem step_log2 {c : Cfg} (hg : c.Good) (s : St) (ev : Ev) (h : Inv2 c.createNoneTest c.clk s) (hl : LogOK2 s) :
     LogOK2 (step c s ev).1 := by
   have hext := step_same hg.toBootGood s ev h
   have hold : ∀ e ∈ s.log, EffOK2 (step c s ev).1.ps.objs e := fun e he => EffOK2.mono hext (hl e he)
@@ -512,7 +520,7 @@ theorem step_log2 {c : Cfg} (hg : c.Good) (s : St) (ev : Ev) (h : Inv2 c.clk s) 
           simp only [pushEff, List.mem_cons] at he
           rcases he with rfl | he
           · have hok := h.ps.objs o (List.mem_of_getElem? ho)
-            have := method_eff_ok2 hg h.ps.boot_nz hok hm heff
+            have := method_eff_ok2 hg h.kern.stamp h.ps.boot_nz hok hm heff
             simp only at this
             obtain ⟨hext', hsame⟩ := method_ext hg.toBootGood h.kern s.ps h.ps.boot_nz o hm
             refine ⟨r.o, ?_, ?_, this.2.1, ?_⟩
@@ -521,7 +529,7 @@ theorem step_log2 {c : Cfg} (hg : c.Good) (s : St) (ev : Ev) (h : Inv2 c.clk s) 
             · intro hn; rw [hsame.ghost]; exact this.2.2 (by rw [← hsame.ident]; exact hn)
           · exact hold e he
 
-theorem run_log2 {c : Cfg} (hg : c.Good) (h : List Ev) : ∀ (s : St), HistOKb h → Inv2 c.clk s → LogOK2 s →
+theorem run_log2 {c : Cfg} (hg : c.Good) (h : List Ev) : ∀ (s : St), HistOKb c.createNoneTest h → Inv2 c.createNoneTest c.clk s → LogOK2 s →
     LogOK2 (run c s h) := by
   induction h with
   | nil => intro s _ _ hl; exact hl
